@@ -153,6 +153,9 @@ class Spec:
         ops.append(["del", "b"])
         ops.append(["pop", "c"])
         ops.append(["update", [["b", "Afit"], ["c", "A_plus1"]]])
+        # non-initial start states: a group that held members and was emptied again, by each way of removing
+        for how in ("pop", "del", "clear", "del-then-pop"):
+            ops.append(["ctor_emptied", how])
         # the same object reachable twice in one group
         ops.append(["alias", "a", "c"])
         ops.append(["alias", "c", "b"])
@@ -175,7 +178,10 @@ class Spec:
             v = g._container[k]
             parts = list(v._xyz.values()) if isinstance(v, osyris.Vector) else [v]
             same.append([ids.setdefault(id(p._array if hasattr(p, "_array") else p), len(ids)) for p in [v] + parts])
-        return [[[k, describe(g._container[k])] for k in g._container], same, impl.aliased]
+        # every other instance attribute is part of the state (a cached shape, a dirty flag, ...): a finer canonical
+        # form only costs time, a coarser one would merge states with different futures
+        hidden = sorted((k, repr(v)) for k, v in vars(g).items() if k not in ("_container", "parent"))
+        return [[[k, describe(g._container[k])] for k in g._container], same, impl.aliased, hidden]
 
     # -- model helpers
     @staticmethod
@@ -236,6 +242,25 @@ class Spec:
             impl.obj = g = osyris.Datagroup(vals)
             impl.aliased = False
             ret = "ctor"
+        elif name == "ctor_emptied":
+            model.clear()
+            vals = {k: build_value(kind, model_arrays(kind, (N0,), 1)) for k, kind in (("a", "Afit"), ("c", "Aifit"))}
+            impl.obj = g = osyris.Datagroup(vals)
+            impl.aliased = False
+            _ = g.shape
+            how = op[1]
+            if how == "clear" and hasattr(g, "clear"):
+                g.clear()
+            elif how == "pop":
+                g.pop("a")
+                g.pop("c")
+            elif how == "del-then-pop":
+                del g["a"]
+                g.pop("c")
+            else:
+                del g["a"]
+                del g["c"]
+            ret = "emptied"
         elif name == "set":
             ret = self._insert(impl, model, op[1], op[2], problems, lambda k, v: g.__setitem__(k, v))
         elif name == "update":
